@@ -48,6 +48,18 @@ def check_targets(bdir, src, mf, unity):
             produced = [o for o in e.outs]
             if sorted(produced) != sorted(names):
                 v.append(('C15:targets:filename-set:%s' % typ.replace(' ', '_'), 'target %s: intro-targets.json lists %s, the statement producing it has outputs %s' % (t['id'], sorted(names), sorted(produced))))
+        # a custom target's statement consumes its inputs: the sources the introspection data lists for it
+        if typ == 'custom':
+            listed = set()
+            for g in t['target_sources']:
+                listed.update(os.path.normpath(p) for p in g.get('sources', []))
+                listed.update(os.path.normpath(p) for p in g.get('generated_sources', []))
+            consumed = {absn(p) for p in e.ins}
+            st['custom_targets_with_inputs_compared'] = st.get('custom_targets_with_inputs_compared', 0) + 1
+            if listed != consumed:
+                flat = any('meson-out/' in p for p in e.outs)
+                v.append(('C15:targets:custom-sources' + (':flat-layout' if flat else ''), 'custom target %s: its statement consumes %s but intro-targets.json lists %s'
+                          % (t['id'], sorted(os.path.relpath(p, bdir) for p in consumed - listed) or '(same)', sorted(os.path.relpath(p, bdir) for p in listed - consumed) or '(same)')))
         # sources consumed by the compile statements of this target
         if typ in ('executable', 'static library', 'shared library', 'shared module') and not unity:
             objs = [p for p in e.ins]
@@ -664,7 +676,12 @@ def main():
              # sources that configuration itself writes into the build directory (with and without build_subdir:)
              'configured-source': "executable('p_cfgsrc', configure_file(input: SRC, output: 'p_cfgsrc.c', copy: true), LIB)",
              'configured-source-placed': "executable('p_cfgsrc2', LIB, configure_file(input: SRC, output: 'p_cfgsrc2.c', copy: true, build_subdir: 'deep'), build_subdir: 'deep')",
-             'configured-source-library': "static_library('p_cfglib', configure_file(input: LIB, output: 'p_cfglib.c', copy: true))"}
+             'configured-source-library': "static_library('p_cfglib', configure_file(input: LIB, output: 'p_cfglib.c', copy: true))",
+             # custom targets consuming files, whole custom targets and single outputs of custom targets
+             'custom-consumers': "pa = custom_target('p_two', output: ['p_a.txt', 'p_b.txt'], command: ['touch', '@OUTPUT@'])\n"
+                                 "custom_target('p_u1', input: pa[1], output: 'p_u1.txt', command: ['cp', '@INPUT@', '@OUTPUT@'])\n"
+                                 "custom_target('p_u2', input: [pa, LIB], output: 'p_u2.txt', command: ['cp', '@INPUT0@', '@OUTPUT@'])\n"
+                                 "custom_target('p_u3', input: [pa[0], SRC, pa[1]], output: 'p_u3.txt', command: ['cp', '@INPUT0@', '@OUTPUT@'])"}
     for kname, decl in kinds.items():
         for place in ('root', 'subdir'):
             up = '../' if place == 'subdir' else ''
